@@ -216,6 +216,14 @@ pub fn judge(case: &Case, l: &mut Local) {
             let far = farthest_point_direction_distance(&pl, &ray);
             let want = pts.iter().map(|p| d.normalize().dot(&(p - o))).fold(f64::MIN, f64::max);
             l.check("farthest projected vertex", "", (far - want).abs() <= 1e-9 * ext, mk, || format!("{} vs {}", far, want));
+            // the same answer through the curve's own methods, measured from the query's origin
+            {
+                let sp0 = engeom::SurfacePoint2::new_normalize(*o, d);
+                let got = curve.max_dist_in_direction(&sp0);
+                let arg = curve.max_point_in_direction(&sp0.normal);
+                let ok = (got - want).abs() <= 1e-9 * ext && arg.map(|(_, p)| (d.normalize().dot(&(p - o)) - want).abs() <= 1e-9 * ext).unwrap_or(false);
+                l.check("farthest projected vertex through the curve's own methods", "", ok, mk, || format!("{} vs {} (point {:?})", got, want, arg));
+            }
             if let Ok(spt) = guarded(|| SurfacePoint2::new_normalize(*o, d)) {
                 let ts: Vec<f64> = curve.intersection(&spt);
                 let uray = Ray::new(*o, d.normalize());
